@@ -105,6 +105,11 @@ def leak_classes(leak_text):
             continue
         fr = lib_frames(block, 3)
         if not fr:
+            # arrays the harness allocates only to hand them to the library (the basis given to QSexact_solver, whose arrays the
+            # library must release when it replaces them) are the library's to free
+            if "to_lib_basis" in block:
+                classes.setdefault("leak:handed-over:basis-arrays", block[:1500])
+                continue
             classes.setdefault("leak:harness", block[:1500])
             continue
         classes.setdefault("leak:" + "/".join(fr), block[:1500])
@@ -230,12 +235,17 @@ def op_at_crash(trace_lines):
     return kind + ((":" + what) if what else "") + (":invalid" if inv else ""), last
 
 
+HANG_CONFIRM_S = int(os.environ.get("VERIF_HANG_CONFIRM_S", "900"))
+SLOW_RUNS = [0]
+
 def crash_property(opdesc, plan_profile):
     """which property owns a crash (DESIGN 5: C07 for invalid-argument ops, C11 for reads of damaged files, C17 otherwise)"""
     if ":invalid" in opdesc or opdesc.startswith("qinvalid"):
         return "C07"
     if opdesc.startswith(("read", "rbasis")) and plan_profile in ("reader",):
         return "C11"
+    if opdesc.startswith("lu"):
+        return "C13"   # component-level LU history: neither an exact solve nor a reported singularity
     return "C17"
 
 
@@ -245,12 +255,23 @@ def violations_of(res, crash, flavour, plan_text, profile):
     if crash is not None:
         if crash["kind"] == "garbled":
             return [("HARNESS", "garbled-result", crash["san"])]
+        if crash["kind"] == "hang":
+            # the watchdog is wall-clock time, which the simulation does not control: a run is only called a hang when a fresh
+            # process given HANG_CONFIRM_S (far beyond the slowest finite run seen, a walk up all twelve precision levels
+            # under ASan) does not finish either; a run that does finish is judged by its result like any other
+            r2, c2, lines = replay_once(flavour, plan_text, trace=True, tag="classify", timeout=HANG_CONFIRM_S)
+            if r2 is not None:
+                SLOW_RUNS[0] += 1
+                return violations_of(r2, None, flavour, plan_text, profile)
+            if c2 is not None and c2["kind"] != "hang":
+                return violations_of(None, c2, flavour, plan_text, profile)
+            opdesc, opline = op_at_crash(lines)
+            cls = "hang:" + opdesc
+            # termination is promised by C03 (solves) and C11 (readers); no listed property speaks about other calls
+            prop = "C03" if opdesc.startswith("solve") else "C11" if opdesc.startswith(("read", "rbasis")) else "NOTE"
+            return [(prop, cls, "no result within %d s in a fresh process; last op: %s" % (HANG_CONFIRM_S, opline))]
         _, c2, lines = replay_once(flavour, plan_text, trace=True, tag="classify")
         opdesc, opline = op_at_crash(lines)
-        if crash["kind"] == "hang":
-            cls = "hang:" + opdesc
-            prop = "C11" if profile == "reader" else "C17"
-            return [(prop, cls, "no result within the watchdog limit; last op: " + opline)]
         san = crash["san"] or (c2["san"] if c2 else "")
         cls = crash_class(san, crash["exit"], opdesc)
         return [(crash_property(opdesc, profile), cls, (opline + "\n" + san)[:3000])]
@@ -307,6 +328,8 @@ def reproduces(flavour, text, prop, cls, profile, tag="gate"):
 def shrink(flavour, text, prop, cls, profile, budget=250, log=None):
     """class preserving ddmin over op units, fault lines, lp lines, then number simplification"""
     runs = [0]
+    if cls.startswith("hang:"):
+        return text   # every probe would cost the full confirmation time
     special = cls.startswith(("nondeterministic:", "valgrind:"))
     if special:
         budget = min(budget, 60)
@@ -759,7 +782,7 @@ def check(prop, tier):
             "faults_fired": stats["faults"],
             "probes": stats["probes"],
             "runs_by_arm": stats["by_arm"],
-            "worker_crashes": stats["crashes"], "worker_hangs": stats["hangs"],
+            "worker_crashes": stats["crashes"], "worker_watchdog_timeouts": stats["hangs"], "slow_runs_that_finished_in_a_fresh_process": SLOW_RUNS[0],
             "determinism_rechecks": stats["rechecks"], "determinism_mismatches": stats["recheck_mismatch"],
             "violations_of_other_properties_seen": stats["foreign"],
             "known_findings_matched": sorted(known_hit.keys()),
